@@ -25,7 +25,7 @@ type gnet struct {
 	nodes   map[string]simnet.PacketReceiver
 	faults  map[[2]int]faultSpec
 	count   [2]int
-	clean   bool // no faults any more (re-dial phase)
+	clean   bool   // no faults any more (re-dial phase)
 	mode    string // ok | blackhole (nothing reaches the client) | hsblock (only Initial packets reach the client)
 	pending []*pend
 	seq     int
